@@ -265,7 +265,10 @@ def run(ctx):
     at = par_c.methods.get("append_text")
     if at is None:
         raise AnalysisError("anchor vanished: CT_TextParagraph.append_text")
-    loops = [n for n in walk_own(at.node) if isinstance(n, ast.For)]
+    from sa.inline import expand as _expand_at
+
+    atx = _expand_at(prog, at, skip_names=("add_br", "add_r", "_add_br", "_add_r"))   # per-item helpers are read in place
+    loops = [n for n in walk_own(atx) if isinstance(n, ast.For)]
     spl = None
     first_form = None  # (first-item variable, statements handling it) for the `first, *rest = split` form
 
@@ -279,17 +282,18 @@ def run(ctx):
             spl = (lp, it.args[0])
     if spl is None:
         # first, *rest = re.split(...);  <statements on first>;  for item in rest: ...
-        for st_ in at.node.body:
+        for st_ in atx.body:
             if isinstance(st_, ast.Assign) and isinstance(st_.targets[0], ast.Tuple) and len(st_.targets[0].elts) == 2 \
                     and isinstance(st_.targets[0].elts[1], ast.Starred) and is_split(st_.value):
                 fv = st_.targets[0].elts[0].id
                 rv = st_.targets[0].elts[1].value.id
                 for lp in loops:
                     if dotted(lp.iter) == rv and isinstance(lp.target, ast.Name):
-                        others = [x for x in at.node.body if x is not st_ and x is not lp
+                        others = [x for x in atx.body if x is not st_ and x is not lp
                                   and not (isinstance(x, ast.Expr) and isinstance(x.value, ast.Constant))]
-                        before = [x for x in others if x.lineno < lp.lineno]
-                        after = [x for x in others if x.lineno > lp.lineno]
+                        pos_ = {id(x): i_ for i_, x in enumerate(atx.body)}   # by position (inlined statements keep foreign line numbers)
+                        before = [x for x in others if pos_.get(id(x), -1) < pos_.get(id(lp), 1 << 30)]
+                        after = [x for x in others if pos_.get(id(x), -1) > pos_.get(id(lp), 1 << 30)]
                         if not after:
                             spl = (lp, st_.value)
                             first_form = (fv, before)
@@ -497,6 +501,12 @@ def run(ctx):
             if isinstance(st, ast.Expr) and isinstance(st.value, ast.Call) and addp and dotted(st.value.func) == addp + ".append_text" \
                     and dotted(st.value.args[0]) == lp.target.id:
                 filled = True
+            # chained: X.add_p().append_text(segment)
+            if isinstance(st, ast.Expr) and isinstance(st.value, ast.Call) and isinstance(st.value.func, ast.Attribute) \
+                    and st.value.func.attr == "append_text" and isinstance(st.value.func.value, ast.Call) \
+                    and isinstance(st.value.func.value.func, ast.Attribute) and st.value.func.value.func.attr == "add_p" \
+                    and st.value.args and dotted(st.value.args[0]) == lp.target.id:
+                addp, filled = "<chained>", True
         if not (addp and filled) or any(isinstance(x, (ast.If, ast.Continue, ast.Break)) for x in ast.walk(lp)):
             probs.append("not exactly one paragraph added and filled per segment")
     if probs:
